@@ -125,7 +125,7 @@ class QGen:
             if self.allow_mutators:
                 pool += ["push", "push", "setkey", "dfcol", "mutvar", "mk", "deepmut", "argmut"]
             if self.allow_fail:
-                pool += ["boom", "needs", "nosuchcmd"]
+                pool += ["boom", "needs", "nosuchcmd", "boom0"]
             c = r.choice(pool)
         self.feat("cmd." + c)
         a = []
